@@ -847,6 +847,11 @@ class FG:
         else: self.emit('mov', self.X_(), self.X_())
 
     def g_ovf(self):
+        """an overflow insn and the branch that reads its flags.  The result goes to a register or to MEMORY
+        (plain / displacement / index*scale address: link-time simplification computes the address around
+        the insn, and nothing between the insn and the branch may touch the flags); operands are ordinary
+        values or sit on the overflow boundaries of the width; the flag the branch saw and the stored
+        result are made observable"""
         r = self.rng
         wide = r.random() < 0.5
         base = r.choice(['addo', 'subo', 'mulo', 'umulo'])
@@ -857,9 +862,35 @@ class FG:
         a = self.src64(allow_mem=False) if wide else self.src32(allow_mem=False)
         b = self.src64(allow_mem=False) if wide else self.src32(allow_mem=False)
         if r.random() < 0.25: b = Imm(r.choice([0, 1, 1, -1, 2]))
+        if r.random() < self.opts.get('p_ovf_boundary', 0.4):
+            # operands on the boundary: the result lies within +-2 of the signed / unsigned wrap-around
+            bits = 64 if wide else 32
+            edge = r.choice([(1 << (bits - 1)) - 1, -(1 << (bits - 1)), -1, 0, (1 << bits) - 1 if not wide else -1,
+                             1 << (bits // 2), (1 << (bits // 2)) - 1, -(1 << (bits // 2))])
+            ta = self.new_local('ov')
+            self.emit('mov', R(ta), Imm(edge + r.choice([-2, -1, 0, 0, 1, 2]) if base != 'mulo' and base != 'umulo'
+                                        else edge))
+            a = R(ta)
+            if base in ('mulo', 'umulo'):
+                tb = self.new_local('ov')
+                self.emit('mov', R(tb), Imm(r.choice([(1 << (bits // 2)), (1 << (bits // 2)) - 1, (1 << (bits // 2)) + 1,
+                                                      -(1 << (bits // 2)), 2, -1, 1, 0, (1 << (bits // 2 - 1))])))
+                b = R(tb)
+            else:
+                b = Imm(r.choice([0, 1, -1, 2, -2, 1, -1])) if r.random() < 0.7 else b
+            if r.random() < 0.5 and base != 'subo' and base != 'subos': a, b = b, a
+            self.p.features.add('ovf:boundary-operands')
         dst = self.X_() if wide else self.W_()
+        mem = None
+        if r.random() < self.opts.get('p_ovf_mem', 0.45):
+            # a 32-bit result has undefined upper bits: narrow cells only
+            mem = self.mem_operand(r.choice(['i64', 'u64', 'i64'] + (['i32', 'u16'] if r.random() < 0.3 else [])
+                                            if wide else ['i32', 'u32', 'i32', 'i16', 'u8']), write=True)
+            if mem is not None:
+                dst = mem
+                self.p.features.add('ovf:mem-result' + (':index' if mem.index is not None else ':disp' if mem.disp else ':plain'))
         self.emit(op, dst, a, b)
-        for _ in range(r.choice([0, 0, 1, 2])):
+        for _ in range(r.choice([0, 0, 0, 1, 2])):
             self.emit('mov', self.X_(), self.X_())       # reg-reg moves keep the flag
         lt, lj = self.label(), self.label()
         self.emit(br, lt)
@@ -869,6 +900,13 @@ class FG:
         self.place(lt)
         self.emit('mov', flag, Imm(r.randrange(100, 200)))
         self.place(lj)
+        if r.random() < self.opts.get('p_ovf_observe', 0.5):
+            # which way the branch went and what was stored, shown to the outside world at once
+            v = flag
+            if mem is not None:
+                v = R(self.new_local('ov'))
+                self.emit('mov', v, Mem(mem.ty, mem.disp, mem.base, mem.index, mem.scale))
+            self.emit('call', Ref('p_exv'), Ref('exv'), flag, v)
         self.p.features.add('ovf:' + op + '+' + br)
 
     def g_counted_loop(self):
@@ -1178,7 +1216,7 @@ class FG:
         kinds = [(self.g_alu64, 14), (self.g_alu32, 12), (self.g_neg, 2), (self.g_ext, 6), (self.g_cmp, 7),
                  (self.g_ext_chain, 3), (self.g_reload, 3), (self.g_overlap, 5),
                  (self.g_shift, 7), (self.g_div, 7), (self.g_imm_arith, self.opts.get('w_imm_arith', 8)), (self.g_load, 8), (self.g_store, 9), (self.g_mov, 5),
-                 (self.g_ovf, 2), (self.g_pressure, self.opts.get('w_pressure', 3)), (self.g_local_alloca, 2), (self.g_counted_loop, 3), (self.g_call_ext, 3),
+                 (self.g_ovf, self.opts.get('w_ovf', 4)), (self.g_pressure, self.opts.get('w_pressure', 3)), (self.g_local_alloca, 2), (self.g_counted_loop, 3), (self.g_call_ext, 3),
                  (self.g_call_mir, self.opts.get('w_call', 4)), (self.g_self_call, 1)]
         if self.LD or any(self.CR.values()):
             kinds.append((self.g_param_write, self.opts.get('w_param_write', 8)))
